@@ -21,6 +21,12 @@ structure Rec (P : Prims) (V : St → List Val) : Prop where
   constant : ∀ dd c s s', P.constant dd c s = .ok s' → ∃ v, V s' = V s ++ [v]
   newRefval : ∀ e n s s', P.newRefval e n s = .ok s' → s'.descs = .plain e :: s.descs ∧ ∃ v, V s' = V s ++ [v]
   lastValues : ∀ k s l, P.lastValues k s = .ok l → 1 ≤ k → k ≤ (V s).length → l = Spec.lastN k (V s)
+  /-- no primitive changes the NUMBER of value lists (subsets) -/
+  numericL : ∀ dd n sc r s s', P.numeric dd n sc r s = .ok s' → s'.vals.length = s.vals.length
+  stringL : ∀ dd n s s', P.string dd n s = .ok s' → s'.vals.length = s.vals.length
+  codeflagL : ∀ dd n s s', P.codeflag dd n s = .ok s' → s'.vals.length = s.vals.length
+  constantL : ∀ dd c s s', P.constant dd c s = .ok s' → s'.vals.length = s.vals.length
+  newRefvalL : ∀ e n s s', P.newRefval e n s = .ok s' → s'.vals.length = s.vals.length
   setRegs : ∀ s f, V (s.setRegs f) = V s
   addLink : ∀ s o, V (addLink s o) = V s
 
